@@ -1,3 +1,3 @@
-#include "c04_ipose.h"
 #define C04_TU 3
+#include "c04_ipose.h"
 #include "io.c"
